@@ -65,7 +65,7 @@ type Contract struct {
 
 var clauseKW = map[string]bool{"func": true, "closure": true, "iface": true, "extern": true, "typeinv": true, "lemma": true,
 	"results": true, "requires": true, "ensures": true, "modifies": true, "loop": true, "ghost": true, "trusted": true,
-	"strictslice": true, "pure": true, "maypanic": true, "flag": true, "props": true, "nooverflow": true, "property": true, "ghostout": true, "define": true, "is": true}
+	"strictslice": true, "pure": true, "maypanic": true, "flag": true, "props": true, "nooverflow": true, "property": true, "ghostout": true, "define": true, "is": true, "axiom": true}
 
 var headRe = regexp.MustCompile(`^(requires|ensures|invariant|decreases)(\[[^\]]*\])?\s*(.*)$`)
 
@@ -230,6 +230,14 @@ func (cs *ContractSet) addClause(cur **Contract, pkgPath, pos, text string) erro
 		}
 		c.Target = "define " + pkgPath + "." + strings.TrimSpace(name[:lp])
 		cs.ByTarget[c.Target] = c
+		*cur = c
+		return nil
+	case "axiom":
+		// axiom name  followed by  is EXPR : assumed at the entry of every function of the package
+		c := &Contract{Kind: "axiom", Pkg: pkgPath, LoopInv: map[int][]*Clause{}, LoopDec: map[int]*Clause{}, LoopMod: map[int][]string{}, Flags: map[string]string{}, Pos: pos, Trusted: true}
+		c.Target = "axiom " + pkgPath + "." + strings.TrimSpace(rest)
+		cs.ByTarget[c.Target] = c
+		cs.Order = append(cs.Order, c.Target)
 		*cur = c
 		return nil
 	case "func", "closure", "iface", "extern", "typeinv", "lemma":
